@@ -3237,3 +3237,53 @@ def _alias_view_inner(o):
         op._verif_view_inner = V
         return op
     return mk
+
+
+# --------------------------------------------------------------------------
+# dense ProductSpaceOperator blocks whose row entries are NOT adjacent in the
+# stored COO order: adjoints (transposed storage) and user COO matrices with
+# interleaved rows (`COOMatrix` documents out-of-order indices as allowed)
+
+LIN_BLOCK_KINDS = ['scale', 'ident', 'mult', 'matsq', 'pdiff', 'scale']
+
+
+def _make_pso_dense(tag, nr, nc, how):
+    @entry('ProductSpaceOperator.dense.' + tag, 'pspace',
+           classes=['ProductSpaceOperator'])
+    def _f(o):
+        sd = space(o, 'space', kinds=('rn', 'discr', 'cn'), medium=False)
+        cells = [[endo(o, 'e%d%d' % (i, j), LIN_BLOCK_KINDS)
+                  for j in range(nc)] for i in range(nr)]
+        o.opts['blocks'] = '{}x{}'.format(nr, nc)
+        o.opts['how'] = how
+
+        def mk():
+            sp = B(sd)
+            mat = [[c(sp) for c in row] for row in cells]
+            if how == 'coo-interleaved':
+                from odl.util import COOMatrix
+                # column-major storage order: consecutive entries belong to
+                # different rows
+                idx = [(i, j) for j in range(nc) for i in range(nr)]
+                data = np.empty(len(idx), dtype=object)
+                for k, (i, j) in enumerate(idx):
+                    data[k] = mat[i][j]
+                op = odl.ProductSpaceOperator(COOMatrix(
+                    data, ([i for i, _ in idx], [j for _, j in idx]),
+                    (nr, nc)))
+            else:
+                op = odl.ProductSpaceOperator(mat)
+                if how == 'adjoint':
+                    op = op.adjoint
+                elif how == 'adjadj':
+                    op = op.adjoint.adjoint
+            op._verif_pso_dense = True
+            return op
+        return mk
+
+
+for _nr, _nc in ((2, 2), (2, 3), (3, 2)):
+    for _how in ('adjoint', 'adjadj'):
+        _make_pso_dense('{}x{}.{}'.format(_nr, _nc, _how), _nr, _nc, _how)
+_make_pso_dense('2x2.coo-interleaved', 2, 2, 'coo-interleaved')
+_make_pso_dense('2x3.coo-interleaved', 2, 3, 'coo-interleaved')
